@@ -2,6 +2,9 @@
 #include "common/check_main.hpp"
 #include "ref/lz4_ref.hpp"
 #include "inc/Decompressor.h"
+#include "common/memface.hpp"
+#include "common/dump.hpp"
+#include "common/fonts.hpp"
 using namespace vf;
 
 static GuardBuf *g_in, *g_out;
@@ -89,12 +92,36 @@ static void setup_short(Runner &r, const Tier &t) {
             uint64_t n = 1ULL << (2 * (len - 5)); for (uint64_t v = 0; v < n; ++v) { uint64_t x = v; for (int k = 5; k < len; ++k) { in[k] = A[x & 3]; x >>= 2; } ref::Lz4Result rr = ref::lz4_decode(in.data(), in.size());
                 eval(i, in, rr.ok && rr.out.size() ? rr.out.size() : 40, rr, c, "short13"); } } };
 }
+
+// ---- table wrapper: [version u32][scheme:5 | announced size:27][block] of the compressed Silf / Glat tables of the compressed seed fonts:
+// every scheme value x a boundary set of announced sizes, loaded through gr_make_face_with_ops (library allocations are ASan-checked)
+struct WCase { int font; uint32_t tag; uint32_t scheme, size; }; static std::vector<WCase> g_wc; static std::vector<std::string> g_wfonts; static std::vector<std::string> g_wplain;
+static void setup_wrapper(Runner &r, const Tier &t) {
+    g_wc.clear(); g_wfonts = { gen_dir() + "/s_full_z.ttf", gen_dir() + "/s_full_zs.ttf", gen_dir() + "/s_full_zg.ttf" }; if (t.thorough) g_wfonts.push_back(font_path("Awami_compressed_test.ttf"));
+    g_wplain.clear(); { TableSet ts; MemFace mf; mf.ts = &ts; if (ts.from_file(gen_dir() + "/s_full.ttf")) { gr_face *f = mf.make(0); g_wplain.push_back(f ? dump_face(f) : ""); if (f) gr_face_destroy(f); } }
+    for (size_t fi = 0; fi < g_wfonts.size(); ++fi) { TableSet ts; if (!ts.from_file(g_wfonts[fi])) continue;
+        for (uint32_t tag : { mktag("Silf"), mktag("Glat") }) { auto it = ts.t.find(tag); if (it == ts.t.end() || it->second.size() < 9) continue; uint32_t w = be32(&it->second[4]); if ((w >> 27) == 0) continue; uint32_t full = w & 0x07FFFFFF, clen = uint32_t(it->second.size());
+            std::set<uint32_t> sizes = { 0, 1, 2, 3, 4, 5, 7, 8, 9, 12, 13, 16, clen - 9, clen - 8, clen - 7, clen - 1, clen, clen + 1, full / 2, full - 4, full - 1, full, full + 1, full + 4, 2 * full, 0x10000, 0xFFFFF, 0x1000000, 0x3FFFFFF, 0x4000000, 0x7FFFFFE, 0x7FFFFFF };
+            for (uint32_t sc = 0; sc < 32; ++sc) for (uint32_t sz : sizes) g_wc.push_back({ int(fi), tag, sc, sz & 0x07FFFFFF }); } }
+    r.ncases = g_wc.size(); r.case_alarm_s = 120;
+    r.describe = [](uint64_t i) { const WCase &c = g_wc[i]; JObj o; o.kv("font", g_wfonts[c.font]).kv("table", tagstr(c.tag)).kv("scheme", c.scheme).kv("announced_size", c.size); return o; };
+    r.body = [](uint64_t i, ShardCtl &ctl) { const WCase &c = g_wc[i]; TableSet ts; if (!ts.from_file(g_wfonts[c.font])) return; Bytes &b = ts.t[c.tag]; uint32_t orig = be32(&b[4]); uint32_t w = (c.scheme << 27) | c.size; b[4] = uint8_t(w >> 24); b[5] = uint8_t(w >> 16); b[6] = uint8_t(w >> 8); b[7] = uint8_t(w);
+        for (unsigned opts : { 0u, 7u }) { MemFace mf; mf.ts = &ts; gr_face *f = mf.make(opts); ctl.counters[0] = ctl.counters[0] + 1; const char *why = nullptr;
+            if (f) { ctl.counters[1] = ctl.counters[1] + 1; std::string d = dump_face(f); gr_segment *sg = gr_make_seg(nullptr, f, 0, nullptr, gr_utf8, "ab c", 4, 0); if (sg) gr_seg_destroy(sg);
+                if (w == orig && c.font < 3 && !g_wplain.empty() && d != g_wplain[0]) why = "unmodified compressed font reports a different face than the uncompressed one";
+                gr_face_destroy(f); }
+            else if (w == orig) why = "unmodified compressed font rejected";
+            if (!why && !mf.outstanding.empty()) why = "borrowed tables outstanding after the face is gone";
+            if (why) { JObj o; o.kv("family", "table_wrapper").kv("font", g_wfonts[c.font]).kv("table", tagstr(c.tag)).kv("scheme", c.scheme).kv("announced_size", c.size).kv("options", opts).kv("kind", why); report_fail(i, o); mf.drop_outstanding(); return; } }
+        ctl.cls(uint64_t(c.scheme) * 64 + (c.size < 16 ? c.size : 16 + (c.size % 7))); };
+}
 int main(int argc, char **argv) {
     std::vector<Sub> subs; std::vector<std::string> cn = { "decodes", "accepted", "must_accept" };
     { Sub s; s.name = "blocks2"; s.setup = setup_blocks2; s.budget_quick = 100; s.budget_thorough = 600; s.counter_names = cn; subs.push_back(s); }
     { Sub s; s.name = "blocks3"; s.setup = setup_blocks3; s.budget_quick = 60; s.budget_thorough = 600; s.counter_names = cn; subs.push_back(s); }
     { Sub s; s.name = "truncation"; s.setup = setup_trunc; s.counter_names = cn; subs.push_back(s); }
     { Sub s; s.name = "byte_deviation"; s.setup = setup_dev; s.budget_quick = 60; s.budget_thorough = 900; s.counter_names = cn; subs.push_back(s); }
+    { Sub s; s.name = "table_wrapper"; s.setup = setup_wrapper; s.budget_quick = 60; s.budget_thorough = 300; s.counter_names = { "loads", "accepted" }; subs.push_back(s); }
     { Sub s; s.name = "short13"; s.setup = setup_short; s.budget_quick = 100; s.budget_thorough = 900; s.counter_names = cn; subs.push_back(s); }
     return check_main(argc, argv, "C14", subs);
 }
